@@ -65,6 +65,13 @@ class RuleContext:
             fn(self, *args)
         except AnalysisError as e:
             self.errors.append(str(e))
+        except RecursionError:
+            raise
+        except Exception as e:      # a crash inside one rule is an analysis error of that rule, never a verdict; the other rules still run
+            import traceback
+            tb = traceback.extract_tb(e.__traceback__)
+            where = f'{tb[-1].filename.rsplit("/", 1)[-1]}:{tb[-1].lineno}' if tb else '?'
+            self.errors.append(f'{getattr(fn, "__name__", "rule")} crashed: {type(e).__name__}: {e} ({where})')
 
     def rule(self, rid: str, text: str) -> None:
         self.rules[rid] = text
@@ -173,7 +180,7 @@ def finish(ctx: RuleContext, started: float, level_explanation: str, seed: int,
         'seed': seed,
         'level': 'other',
         'coverage': {
-            'explanation': level_explanation,
+            'explanation': level_explanation + ' Rules applied in this run (each stated in full under coverage.rules): ' + ', '.join(ctx.rules) + '.',
             'obligations': obligations,
             'discharged': discharged,
             'evaluations': obligations,
